@@ -143,12 +143,19 @@ def run_main(argv, trigger=None, stdin=None, close_stdin_at_end=True, keep_input
             if trigger:
                 trigger(('POP', len(res.pops), item), ctx)
         return item
+    orig_create = pg.PcfgGrammar.create_guesses
+    def rec_create(self, *a, **k):
+        # after the generation loop has looked at the quit flag for this pre-terminal, before its first guess
+        if trigger:
+            trigger(('CREATE', len(res.pops)), ctx)
+        return orig_create(self, *a, **k)
     def rec_save(self):
         res.saves += 1
         res.events.append(('SAVE', len(res.pops), len(res.guesses)))
         return orig_save(self)
     pg.PcfgGrammar.print_guess = rec_print
     pq.PcfgQueue.next = rec_next
+    pg.PcfgGrammar.create_guesses = rec_create
     cs.CrackingSession._save_session = rec_save
     old_input, old_argv = builtins.input, sys.argv
     old_exit = os._exit
@@ -173,6 +180,7 @@ def run_main(argv, trigger=None, stdin=None, close_stdin_at_end=True, keep_input
     finally:
         pg.PcfgGrammar.print_guess = orig_print
         pq.PcfgQueue.next = orig_next
+        pg.PcfgGrammar.create_guesses = orig_create
         cs.CrackingSession._save_session = orig_save
         sys.argv = old_argv
         os._exit = old_exit
